@@ -495,7 +495,17 @@ impl RefDialog {
         });
         if !(loose_ok || strict_ok) {
             if !uri_equal(&ruri, &t.request_uri, UriCtx::Full) && t.strict.is_none() {
-                bad.push(("request-uri", format!("Request-URI {:?}, remote target is {:?}", ruri, t.request_uri)));
+                // the remote target under the other scheme (sip <-> sips), everything else equal: a root cause of
+                // its own (the scheme is part of the URI: sips:x is not the peer's Contact sip:x)
+                let scheme_only = match (split_uri(&ruri), split_uri(&t.request_uri)) {
+                    (Some(mut a), Some(b)) if a.scheme != b.scheme => {
+                        a.scheme = b.scheme.clone();
+                        a == b
+                    }
+                    _ => false,
+                };
+                let locus = if scheme_only { "request-uri-scheme-differs-from-remote-target" } else { "request-uri" };
+                bad.push((locus, format!("Request-URI {:?}, remote target is {:?}", ruri, t.request_uri)));
             }
             if !route_list_equal(&route, &t.route) || t.strict.is_some() {
                 let locus = if t.route.is_empty() {
@@ -524,6 +534,21 @@ impl RefDialog {
         }
         bad
     }
+}
+
+/// Names a number `n` that fails to be above `last` when it is what a counter yields that was cut off at a power of
+/// two just now: `n` = the successor of `last` modulo 2^k (k = 8, 16, 24, 31, 32), at most 64 numbers behind the
+/// edge (the judged sequence may skip numbers: requests that never reached the wire, other threads' numbers).
+/// Only the NAME of the failure depends on this; a number that is not above its predecessor fails either way.
+pub fn wrap_locus(last: u32, n: u32) -> Option<&'static str> {
+    if n > last {
+        return None;
+    }
+    [(8u32, "wrapped-at-2^8"), (16, "wrapped-at-2^16"), (24, "wrapped-at-2^24"), (31, "wrapped-at-2^31"), (32, "wrapped-at-2^32")]
+        .iter()
+        .rev() // the widest edge that explains the number names it (0 after 2^31-1 is a wrap at 2^31, not at 2^8)
+        .find(|(k, _)| last as u64 + 1 >= 1u64 << k && n < 64 && n as u64 == (last as u64 + 1) & ((1u64 << k) - 1))
+        .map(|(_, l)| *l)
 }
 
 /// CSeq rule of section 12.2.1.1 over the requests of one dialog, in creation order
@@ -580,7 +605,16 @@ impl CSeqTracker {
         }
         if let Some(last) = self.last {
             if n <= last {
-                if self.floor == Some(last) {
+                if let Some(locus) = wrap_locus(last, n) {
+                    // (the judged sequence goes on from the wrapped number: one root cause, one signature)
+                    bad.push((locus, format!("CSeq {n} follows {last}: the dialog's sequence numbers are not increasing")));
+                    self.last = Some(n);
+                    self.floor = None;
+                    if msg.method() == Some("INVITE") {
+                        self.invites.push(n);
+                    }
+                    return bad;
+                } else if self.floor == Some(last) {
                     let earlier = if self.earlier_attempts.is_empty() {
                         String::new()
                     } else {
